@@ -197,13 +197,18 @@ def trailing_text_layout(src):
     return bool(re.search(r"snapshot\(\s*[\[{][^\]}]*(,|#[^\n]*\n)\s*[\]}]\s*\)", src))
 
 
+def crashed(r):
+    """the session died in a hook: pytest prints INTERNALERROR> lines, or (pytest 9, sessionfinish) a raw traceback on stderr"""
+    return "INTERNALERROR" in r.out + r.err or ("Traceback (most recent call last)" in r.err and "pytest_sessionfinish" in r.err)
+
+
 def f13_predicate(files, cats, r):
     """F13: >= 2 categories approved in ONE run, a container snapshot with text between last element and closing bracket,
-    and the combined session dies with INTERNALERROR from the overlap assertion in ChangeRecorder/_check, leaving files unchanged."""
+    and the combined session dies (INTERNALERROR / traceback out of pytest_sessionfinish) from the overlap assertion in ChangeRecorder/_check, leaving files unchanged."""
     out = r.out + r.err
     layout = any(trailing_text_layout(v if isinstance(v, str) else v.decode()) for k, v in files.items() if k.endswith(".py"))
-    return (len(cats) >= 2 and layout and "INTERNALERROR" in out and "AssertionError" in out and "_check" in out
-            and "Replacement(" in out and r.before == r.after)
+    return (len(cats) >= 2 and layout and crashed(r) and "pytest_sessionfinish" in out and "AssertionError" in out
+            and "in _check" in out and "Replacement(" in out and r.before == r.after)
 
 
 def order_job_factory(ex, files, cats, futs, key):
@@ -232,7 +237,7 @@ def replay_c09(files, order, cats):
         f"r = session(P2, ['--inline-snapshot={','.join(cats)}'])",
         "print(r['out'][-3000:])",
         "together = tree(P2)",
-        "assert 'INTERNALERROR' not in r['out'] + r['err'], 'combined run crashed'",
+        "assert 'INTERNALERROR' not in r['out'] + r['err'] and 'Traceback' not in r['err'], 'combined run crashed'",
         "for k in together:",
         "    if k.endswith('.py'): assert dump(one_by_one[k]) == dump(together[k]), (k, one_by_one[k].decode(), together[k].decode())",
     ]
@@ -322,7 +327,7 @@ def run(tier, seed):
                     fails.add(None, dict(project=key, combined=list(F)), "C09 harness exception:\n" + traceback.format_exc(), "")
                     continue
                 together = r.after
-                crashed = "INTERNALERROR" in r.out + r.err
+                has_crashed = crashed(r)
                 orders = list(itertools.permutations(F))
                 finals = {}
                 for o in orders:
@@ -339,12 +344,12 @@ def run(tier, seed):
                     if ref_o in finals else []
                 if len(samples) < 5 and not bad:
                     samples.append(f"C09 {key}: {len(finals)} orders of {list(F)} == combined run")
-                if bad or crashed:
+                if bad or has_crashed:
                     finding = "F13" if (f13_predicate(files, F, r) and not among) else None
                     o, k, txt = bad[0] if bad else (orders[0], "-", "")
                     fails.add(finding, dict(project=key, categories=list(F), orders_differing_from_combined=[list(x[0]) for x in bad][:6],
                                             orders_differing_among_themselves=[list(x) for x in among][:6]),
-                              f"C09: combined run --inline-snapshot={','.join(F)} {'CRASHED (INTERNALERROR) and ' if crashed else ''}"
+                              f"C09: combined run --inline-snapshot={','.join(F)} {'CRASHED (INTERNALERROR / traceback from pytest_sessionfinish) and ' if has_crashed else ''}"
                               f"differs from one-at-a-time approval in {len(bad)}/{len(finals)} orders; e.g. order {list(o)} file {k}:\n{txt}\n"
                               f"--- combined:\n{together.get(k, b'').decode(errors='replace') if k != '-' else ''}\n--- combined output (tail)\n"
                               + tail("\n".join(l for l in (r.out + r.err).splitlines() if not l.startswith("| ")), 14),
